@@ -109,7 +109,20 @@ type Hidden struct {
 	Skip   int `config:"skip,ignore" validate:"min=100"`
 }
 
+// Small: a slice type with its own Validate (every element <= 50).
+type Small []int
+
+func (s Small) Validate() error {
+	for _, x := range s {
+		if x > 50 {
+			return errors.New("c04lib: small holds a value > 50")
+		}
+	}
+	return nil
+}
+
 var (
+	tSmall    = reflect.TypeOf(Small(nil))
 	tInt      = reflect.TypeOf(int(0))
 	tInt64    = reflect.TypeOf(int64(0))
 	tUint     = reflect.TypeOf(uint(0))
